@@ -19,6 +19,7 @@ def sweep_case(group, lo, hi, seed, pid_key):
         calls, mism, first, digs = parse_sweep(rep[0])
         case.dyn['calls'] = calls
         case.dyn['tags'] = [(fn, n) for fn in digs for n in range(lo, hi + 1) if n > 1]
+        case.dyn['ops'] = {fn: v[1] for fn, v in digs.items()}
         case.dyn['info'] = {'sweep:%s:%d-%d' % (group, lo, hi): {k: v[0] for k, v in digs.items()}}
         if mism:
             out = []
